@@ -30,6 +30,9 @@ type Sys struct {
 	Extra func(impl drv.Driver, m *model.Model, trans drv.Op) []Extra
 	// Expand, if set, decides whether the successor of a conforming transition is explored.
 	Expand func(m *model.Model, depth int) bool
+	// OnNewState, if set, runs on every newly discovered state (after de-duplication) with the
+	// live implementation; Rebuild returns a fresh implementation replayed to the same state.
+	OnNewState func(c StateCtx) []Extra
 	// Skip, if set, lets a check declare a transition outside its property (counted, not
 	// compared, not expanded) after seeing the implementation's response.
 	Skip      func(op drv.Op, got drv.Resp) bool
@@ -38,10 +41,21 @@ type Sys struct {
 	Deadline  time.Time
 }
 
+// StateCtx is what OnNewState receives.
+type StateCtx struct {
+	Impl    drv.Driver
+	Model   *model.Model
+	Rebuild func() drv.Driver
+	History []drv.Op
+}
+
 // Extra is a violation found by Sys.Extra.
 type Extra struct {
 	Sig    string
 	Detail string
+	Op     drv.Op
+	Got    string
+	Want   string
 }
 
 type node struct {
@@ -240,6 +254,24 @@ func Explore(s Sys, run *ev.Run) Stats {
 						if s.MaxStates > 0 && nstates > s.MaxStates {
 							atomic.StoreInt32(&stop, 1)
 							continue
+						}
+						if s.OnNewState != nil {
+							full := append(append([]drv.Op{}, hist...), op)
+							rebuild := func() drv.Driver {
+								x := s.NewImpl()
+								for _, o := range s.Init {
+									x.Do(o)
+								}
+								for _, o := range full {
+									x.Do(o)
+								}
+								return x
+							}
+							for _, x := range s.OnNewState(StateCtx{Impl: impl, Model: m, Rebuild: rebuild, History: full}) {
+								if run.Report(x.Sig+"@"+base(impl.Name()), x.Detail, Replay{Driver: impl.Name(), System: s.Name, Init: s.Init, History: full, Op: x.Op, Got: x.Got, Want: x.Want}) {
+									atomic.AddInt64(&st.SuppressedTr, 1)
+								}
+							}
 						}
 						nn := &node{parent: n, op: op, depth: n.depth + 1, m: m}
 						nmu.Lock()
